@@ -115,6 +115,12 @@ class Interp:
             raise Raised(type(exc).__name__, e)
         except ZeroDivisionError:
             raise Raised("ZeroDivisionError", e)
+        except (ValueError, AssertionError, OverflowError) as exc:
+            raise Raised(type(exc).__name__, e)
+        except Exception as exc:
+            if type(exc).__module__ == "struct":
+                raise Raised("struct.error", e)
+            raise
 
     def _ev(self, e, env):
         self.steps += 1
@@ -305,6 +311,19 @@ class Interp:
             simple = {"len": len, "bool": bool, "int": int, "list": list, "tuple": tuple, "dict": dict, "set": set, "str": lambda x="": getattr(x, "_minipy_str", "<str>") if not isinstance(x, str) else x, "enumerate": lambda x, s=0: list(enumerate(x, s)), "zip": lambda *a: list(zip(*a)), "range": range, "any": any, "all": all, "min": min, "max": max, "repr": lambda x: "<repr>", "UID": lambda x: x}
             if n in simple:
                 return simple[n](*args, **kw)
+            if n in ("getattr", "hasattr", "setattr") and n not in self.globals and args and isinstance(args[0], Obj):
+                o_, nm_ = args[0], args[1]
+                has = nm_ in o_.attrs or nm_ in getattr(o_, "alias", {}) or ("@" + nm_) in o_.attrs
+                if n == "hasattr":
+                    return has
+                if n == "setattr":
+                    o_.set(nm_, args[2])
+                    return None
+                if has:
+                    return o_.get(nm_)
+                if len(args) > 2:
+                    return args[2]
+                raise Raised("AttributeError", e)
             if n == "next":
                 it0 = args[0]
                 if isinstance(it0, GenResult):
